@@ -2,7 +2,7 @@ import VermouthModel.C03
 open Proto C03
 
 /- request:  sys <dedup 0|1> <exact 0|1> [ mol* ]
-   mol   := [ nrexcl ff [ atom* ] [ [a b]* ] [ [name [ inter* ]]* ] ]
+   mol   := [ nrexcl ff [ atom* ] [ [a b]* ] [ [name [ inter* ]]* ] [ [metakey [ [k [ val* ]]* ]]* ] ]
    atom  := [ key [ [attrname val]* ] ]
    val   := - | int | [ int ] (float, units 1e-12) | xhex
    inter := [ [key*] xhex ]
@@ -41,11 +41,22 @@ def catOf (t : Tok) : Option (String × List Inter) := do
   | [n, l] => pure (← n.str?, ← (← l.list?).mapM interOf)
   | _ => none
 
+def metaDictOf (t : Tok) : Option (String × List Val) := do
+  match ← t.list? with
+  | [k, vs] => pure (← k.str?, ← (← vs.list?).mapM valOf)
+  | _ => none
+
+def metaOf (t : Tok) : Option (String × MetaDict) := do
+  match ← t.list? with
+  | [k, d] => pure (← k.str?, ← (← d.list?).mapM metaDictOf)
+  | _ => none
+
 def molOf (t : Tok) : Option Mol := do
   match ← t.list? with
-  | [nr, ff, ns, es, is] =>
+  | [nr, ff, ns, es, is, mt] =>
     pure { nrexcl := ← nr.optInt?, ff := ← ff.optInt?, nodes := ← (← ns.list?).mapM atomOf,
-           edges := ← (← es.list?).mapM pairOf, inters := ← (← is.list?).mapM catOf }
+           edges := ← (← es.list?).mapM pairOf, inters := ← (← is.list?).mapM catOf,
+           metadata := ← (← mt.list?).mapM metaOf }
   | _ => none
 
 def encVal : Val → String
